@@ -58,6 +58,11 @@ def cases(tier, seed):
     yield dict(kind='layouts', tier=tier)
     yield dict(kind='array', tier=tier)
     yield dict(kind='partial', tier=tier)
+    for sub in DEGENERATE:
+        yield dict(kind='degenerate', sub=sub, tier=tier)
+
+
+DEGENERATE = ['no events (slice)', 'no events (mask)', 'one event', 'two events', 'no events (array)', 'one event (array)']
 
 
 def bounds(tier, seed):
@@ -206,6 +211,25 @@ def run_case(c):
             if not np.array_equal(arr, base):
                 res.violation('array:input-changed', 'to_mef changed its input array', dict(c))
             res.sample({'container': 'plain ndarray'})
+        elif c['kind'] == 'degenerate':
+            # conversion and refusal do not depend on how many events the sample holds
+            sub = c['sub']
+            dd = {'no events (slice)': lambda: d[:0], 'no events (mask)': lambda: d[np.asarray(d[:, 0]) < 0], 'one event': lambda: d[4:5],
+                  'two events': lambda: d[[7, 2]], 'no events (array)': lambda: base[:0].copy(), 'one event (array)': lambda: base[4:5].copy()}[sub]()
+            db = np.array(np.asarray(dd))
+            named = hasattr(dd, 'channels')
+            for SC in ordered_subsets(mink=1, maxk=3):
+                scl = [curve(j) for j in SC]
+                for scch in ([list(SC), [NAMES[j] for j in SC]] if named else [list(SC)]):
+                    for req, cols in requests('quick', named=named):
+                        rc = list(SC) if cols is None else cols
+                        unc = [j for j in rc if j not in SC]
+                        judge(res, 'degenerate', 'to_mef(sample with %s, channels=%r, curves for %r, sc_channels=%r)' % (sub, req, SC, scch), dd, db,
+                              lambda: to_mef(dd, req, scl, scch), SC, rc, dict(c), 'channel(s) %r have no curve' % unc if unc else None)
+                    for wrong in (scl[:-1], scl + [curve(0)]):
+                        judge(res, 'degenerate', 'to_mef(sample with %s, %r, %d curves, sc_channels=%r)' % (sub, scch[:1], len(wrong), scch), dd, db,
+                              lambda: to_mef(dd, scch[:1], wrong, scch), SC, [], dict(c), 'numbers of curves and channels differ')
+            res.sample({'sample': sub, 'curves': 'ordered subsets of size <= 3', 'requests': len(requests('quick', named=named))})
         else:
             run_partial(res, c, d, base, tier)
     return res
